@@ -101,8 +101,10 @@ def check_case(d, fmt, sort, cfg, tmpdir):
             try:
                 m2b = roundtrip(model, fmt, sort, tmpdir)
                 g0, g1, g2 = mutable_graph(model), mutable_graph(m2), mutable_graph(m2b)
-                for name, ga, gb in (("two loads of the same document share", g1, g2),
-                                     ("the loaded model shares with the saved model", g0, g1)):
+                # (the Python dict variant hands nested annotation values through by reference: the dictionary is
+                # the document there, and the property does not promise a deep copy)
+                for name, ga, gb in (() if fmt == "dict" else (("two loads of the same document share", g1, g2),
+                                                               ("the loaded model shares with the saved model", g0, g1))):
                     shared = sorted({ga[i] for i in set(ga) & set(gb)})
                     for kd in shared[:3]:
                         problems.append((f"{name} mutable object {kd}", kd))
